@@ -532,12 +532,14 @@ theorem findCoreTokens_allOk (s : Str) (fn : Footnotes.Table) (ms : List CoreM) 
       exact this m (List.mem_reverse.1 hm)
 
 /-- a span-token list without the classes `MarkdownRenderer` has no render-map entry for
-    (`Math`, `GithubWiki`; the XWiki macro tokens never produce a candidate in the model) -/
-def spanOk (types : List STok) : Bool := !types.contains .math && !types.contains .githubWiki
+    (`Math`, `GithubWiki`, `XWikiBlockMacroStart`, `XWikiBlockMacroEnd`) -/
+def spanOk (types : List STok) : Bool :=
+  !types.contains .math && !types.contains .githubWiki && !types.contains .xwikiMacroStart && !types.contains .xwikiMacroEnd
 
 /-- what `build` needs of a candidate -/
 def foundOk (f : Found) : Prop :=
-  f.cls ≠ .math ∧ f.cls ≠ .githubWiki ∧ ∀ m, f.payload = .core m → coreOk m = true
+  (f.cls ≠ .math ∧ f.cls ≠ .githubWiki ∧ f.cls ≠ .xwikiMacroStart ∧ f.cls ≠ .xwikiMacroEnd) ∧
+    ∀ m, f.payload = .core m → coreOk m = true
 
 theorem findOne_spec (s : Str) (core : List CoreM) (codes : List CodeM) (t : STok) :
     ∀ f ∈ findOne s core codes t, f.cls = t ∧ ∀ m, f.payload = .core m → m ∈ core := by
@@ -566,8 +568,10 @@ theorem findAll_foundOk (s : Str) (types : List STok) (fn : Footnotes.Table) (fo
     intro f hf
     obtain ⟨t, ht, hft⟩ := List.mem_flatMap.1 hf
     obtain ⟨h1, h2⟩ := findOne_spec s core codes t f hft
-    refine ⟨?_, ?_, fun m hm => hall m (h2 m hm)⟩
-    · rw [h1]; intro e; rw [e] at ht; exact hs.1 ht
+    refine ⟨⟨?_, ?_, ?_, ?_⟩, fun m hm => hall m (h2 m hm)⟩
+    · rw [h1]; intro e; rw [e] at ht; exact hs.1.1.1 ht
+    · rw [h1]; intro e; rw [e] at ht; exact hs.1.1.2 ht
+    · rw [h1]; intro e; rw [e] at ht; exact hs.1.2 ht
     · rw [h1]; intro e; rw [e] at ht; exact hs.2 ht
 
 theorem inlineCodeOf_ok (s : Str) (m : CodeM) : iOk (inlineCodeOf s m) = true := by
@@ -589,7 +593,7 @@ theorem build_ok : ∀ (o : Span.Out), iOk (build s found o) = true
     split
     · rfl
     · rename_i f hf
-      obtain ⟨h1, h2, h3⟩ := hfound f (List.mem_of_getElem? hf)
+      obtain ⟨⟨h1, h2, h4, h5⟩, h3⟩ := hfound f (List.mem_of_getElem? hf)
       split
       · rfl
       · rfl
@@ -598,6 +602,8 @@ theorem build_ok : ∀ (o : Span.Out), iOk (build s found o) = true
       · rfl
       · exact absurd ‹f.cls = STok.math› h1
       · exact absurd ‹f.cls = STok.githubWiki› h2
+      · exact absurd ‹f.cls = STok.xwikiMacroStart› h4
+      · exact absurd ‹f.cls = STok.xwikiMacroEnd› h5
       · exact inlineCodeOf_ok _ _
       · rename_i m _ hp
         have hm := h3 m hp
